@@ -87,6 +87,8 @@ type Prop struct {
 	Custom func(job *Job) *JobResult
 	// Seq returns the specifications of the sequential-driver search (optional).
 	Seq func(tier string) []SeqJob
+	// SeqByName resolves the specification named in a replay file (optional).
+	SeqByName func(name string) *SeqSpec
 	// Describe fills the evidence coverage (rule, assumptions).
 	Rule   string
 	Assume []string
@@ -489,6 +491,9 @@ func worker() {
 		out.Write(b)
 		out.WriteByte('\n')
 		out.Flush()
+		if vsched.Stuck {
+			os.Exit(0) // a stuck goroutine poisons the process: the parent starts a fresh worker
+		}
 	}
 }
 
@@ -521,12 +526,36 @@ func runJob(j *Job) (res *JobResult) {
 // exploreScenario is the generic DFS over one scenario.
 func exploreScenario(p *Prop, j *Job) *JobResult {
 	s := j.Scenario
-	res := &JobResult{Name: j.name(), Outcomes: map[string]int64{}}
 	x := &Exec{Extra: p.Extra}
 	body := s.body(x)
+	oracle := func(r *vsched.Result) []Viol { return p.Oracle(x, r, j) }
+	var outcome func(r *vsched.Result) string
+	if p.Outcome != nil {
+		outcome = func(r *vsched.Result) string { return p.Outcome(x, r) }
+	}
+	return exploreBody(p, j, body, oracle, outcome)
+}
+
+// exploreBody runs the preemption-bounded DFS over body and judges every execution.
+func exploreBody(p *Prop, j *Job, body func(), oracle func(r *vsched.Result) []Viol, outcome func(r *vsched.Result) string) *JobResult {
+	s := j.Scenario
+	res := &JobResult{Name: j.name(), Outcomes: map[string]int64{}}
 	seenKeys := map[string]int{}
 	curFile := os.Getenv("VERIF_CUR_FILE")
 	var execs, points int64
+	judgeRes := func(r *vsched.Result) []Viol {
+		switch r.Outcome {
+		case vsched.Deadlock:
+			return []Viol{{Key: p.ID + "/deadlock", What: "deadlock: " + r.Detail}}
+		case vsched.Livelock:
+			return []Viol{{Key: p.ID + "/livelock", What: "step horizon exceeded: " + r.Detail}}
+		case vsched.Panicked:
+			return []Viol{{Key: p.ID + "/panic:" + panicKey(r.Detail), What: "panic: " + firstLine(r.Detail)}}
+		case vsched.ReplayDiverged:
+			return nil
+		}
+		return oracle(r)
+	}
 	verdict := func(r *vsched.Result, choices []int) string {
 		execs++
 		points += int64(len(r.Points))
@@ -541,20 +570,10 @@ func exploreScenario(p *Prop, j *Job) *JobResult {
 			}
 			return "ok"
 		}
-		var viols []Viol
-		switch r.Outcome {
-		case vsched.Deadlock:
-			viols = append(viols, Viol{Key: p.ID + "/deadlock", What: "deadlock: " + r.Detail})
-		case vsched.Livelock:
-			viols = append(viols, Viol{Key: p.ID + "/livelock", What: "step horizon exceeded: " + r.Detail})
-		case vsched.Panicked:
-			viols = append(viols, Viol{Key: p.ID + "/panic:" + panicKey(r.Detail), What: "panic: " + firstLine(r.Detail)})
-		default:
-			viols = p.Oracle(x, r, j)
-		}
+		viols := judgeRes(r)
 		label := "ok"
-		if p.Outcome != nil && r.Outcome == vsched.Done {
-			label = p.Outcome(x, r)
+		if outcome != nil && r.Outcome == vsched.Done {
+			label = outcome(r)
 		}
 		if len(viols) > 0 {
 			label = "VIOLATION " + viols[0].Key
@@ -564,7 +583,7 @@ func exploreScenario(p *Prop, j *Job) *JobResult {
 					continue
 				}
 				seenKeys[v.Key]++
-				res.Viols = append(res.Viols, ViolReport{Viol: v, Scenario: s, Choices: append([]int(nil), choices...), Bound: j.Bound})
+				res.Viols = append(res.Viols, ViolReport{Viol: v, Scenario: s, Choices: append([]int(nil), choices...), Bound: j.Bound, SeqName: j.Aux})
 			}
 		}
 		return label
@@ -589,8 +608,7 @@ func exploreScenario(p *Prop, j *Job) *JobResult {
 			ok := 0
 			for k := 0; k < 2; k++ {
 				rr := explore.Replay(body, v.Choices, 5000)
-				again := judge(p, x, rr, j)
-				for _, a := range again {
+				for _, a := range judgeRes(rr) {
 					if a.Key == v.Key {
 						ok++
 						break
